@@ -65,6 +65,8 @@ def impl_init():
     from pyp0f.options import Options
     from harness import implutil as U
 
+    CONN = [None]
+
     def impl(c):
         try:
             db = U.load_db("\n".join(c["lines"]) + "\n")
@@ -76,8 +78,21 @@ def impl_init():
             buf = raw                                   # bytes
         elif style % 4 == 1:
             from h11._receivebuffer import ReceiveBuffer
-            buf = ReceiveBuffer()
-            buf += raw
+            if style % 8 == 1:
+                # ONE receive buffer per connection, as h11 users have it: it held an earlier message (fingerprinted then), was emptied, and holds this one now
+                buf = CONN[0]
+                if buf is None:
+                    buf = CONN[0] = ReceiveBuffer()
+                    buf += b"GET /earlier HTTP/1.0\r\nUser-Agent: earlier/1.0\r\nX-Earlier: 1\r\n\r\n"
+                try:
+                    fingerprint_http(buf, options=Options(database=db))
+                except (PacketError, DatabaseError):
+                    pass
+                buf.maybe_extract_at_most(len(buf) or 1)
+                buf += raw
+            else:
+                buf = ReceiveBuffer()
+                buf += raw
         else:
             buf = bytearray(raw)
         try:
